@@ -112,7 +112,7 @@ class SymVC:
         f = z3.Function(name, z3.IntSort(), z3.RealSort() if sort == "Real" else z3.IntSort())
         def elem(i):
             # every index at which an input is read becomes an instantiation term for universal facts
-            self.c.add_index_term(i)
+            self.c.add_index_term(i, n)
             return Sym(f(S.z(i)))
 
         t = Tensor((n,), elem, origin=f"{origin}:{name}", dtype="real" if sort == "Real" else "int")
@@ -126,8 +126,8 @@ class SymVC:
     def matrix(self, name, n, m, sample=None, origin="input"):
         f = z3.Function(name, z3.IntSort(), z3.IntSort(), z3.RealSort())
         def elem(i, j):
-            self.c.add_index_term(i)
-            self.c.add_index_term(j)
+            self.c.add_index_term(i, n)
+            self.c.add_index_term(j, m)
             return Sym(f(S.z(i), S.z(j)))
 
         t = Tensor((n, m), elem, origin=f"{origin}:{name}")
@@ -267,6 +267,55 @@ class SymVC:
             self.getvals.append({"name": str(v), "kind": "int"})
             idx.append(Sym(v))
         self.ensures(name, fn(*idx))
+
+    def ensures_exists(self, name, extent, fn, hints=()):
+        """existential postcondition, proved with a witness among the integer terms the execution produced
+        (plus `hints`): quantifier-free"""
+        # tensors are lazy: evaluate the body once at a probe index so that the integer terms occurring in
+        # it (argmin results, window offsets ...) are registered before the candidates are collected
+        probe = self.c.fresh("probe", "Int")
+        self.c.mark_nonneg(probe)
+        try:
+            fn(Sym(probe))
+        except (Unsupported, PathAbort):
+            pass
+        cands = [t for t, e in self.c.index_terms if not t.eq(probe)] + [S.z(h) for h in hints]
+        alts = []
+        seen = set()
+        for t in cands:
+            if t.get_id() in seen:
+                continue
+            seen.add(t.get_id())
+            try:
+                body = fn(Sym(t) if not z3.is_int_value(t) else t.as_long())
+            except (Unsupported, PathAbort):
+                continue
+            alts.append(S.And(S.cmp(">=", Sym(t), 0), S.cmp("<", Sym(t), extent), body))
+        self.ensures(name, S.Or(*alts) if alts else False)
+
+    def lemma(self, name, cond):
+        """prove `cond` as its own obligation under the current hypotheses, then use it"""
+        self.ensures("lemma." + name, cond)
+        self.c.assume(cond)
+
+    def unchanged(self, name, x, before):
+        """frame clause: the caller's array has the same shape and elements as before the call, and no
+        in-place write targeted a caller allocation"""
+        from .tensor import dim_eq
+        if x.ndim != before.ndim or not all(dim_eq(a, b) for a, b in zip(x.shape, before.shape)):
+            self.ensures(name, False)
+            return
+        self.ensures_forall(name, tuple(before.shape), lambda *idx: S.cmp("==", x.at(*idx), before.at(*idx)))
+        self.ensures(name + "_no_write", len(self.writes_to_inputs()) == 0)
+
+    def pylist(self, x):
+        """the same values as a Python list (symbolic length allowed)"""
+        fz = x.frozen()
+        return SymList(x.shape[0], lambda i: fz.at(i), origin="input:list")
+
+    def sort(self, x, axis=0):
+        """ghost: the sorted rearrangement of x (the assumed contract of numpy's sort)"""
+        return N.np_sort(x, axis=axis)
 
     # ---- mode-agnostic maths ------------------------------------------------------------------------
     pi = Sym(S._PI)
@@ -660,6 +709,25 @@ class NatVC:
             if not bool(fn(*idx)):
                 self._fail(name, f"run-time postcondition false at index {idx}")
                 return
+
+    def ensures_exists(self, name, extent, fn, hints=()):
+        self.checked.append(name)
+        if not any(bool(fn(i)) for i in range(int(extent))):
+            self._fail(name, "no witness index satisfies the run-time postcondition")
+
+    def lemma(self, name, cond):
+        self.ensures("lemma." + name, cond)
+
+    def unchanged(self, name, x, before):
+        self.checked.append(name)
+        if x.shape != before.shape or not np.array_equal(x, before):
+            self._fail(name, "caller's array was modified")
+
+    def pylist(self, x):
+        return [float(v) for v in x]
+
+    def sort(self, x, axis=0):
+        return np.sort(x, axis=axis)
 
     # ---- maths ------------------------------------------------------------------------------------
     pi = math.pi
